@@ -274,6 +274,17 @@ def run_filter_cases(table, frontend="wsgi", threshold=None):
                 r = w.request("PUT", "/user/calendars/f/" + name, [("Content-Type", "text/calendar")],
                               obj_ics(t["obj"], "obj-%d" % (len(objs) - 1)))
                 assert r.status in range(200, 300), (r.status, r.body[:300])
+        # damaged files next to some of the objects (they arrived by git push / a disk problem):
+        # they match nothing - placed so that each sorts directly behind an object
+        broken = []
+        try:
+            st = w.backend.get_resource("/user/calendars/f").store
+            for k in range(0, len(objs), max(1, len(objs) // 6)):
+                bn = "o%03d~broken.ics" % k
+                st.import_one(bn, "application/octet-stream", [b"BEGIN:VCALENDAR\r\nVERSION:2.0\r\nBEGIN:VEVENT\r\nSUMMARY:Meeting"])
+                broken.append(bn)
+        except Exception:
+            broken = []
         # a client asks for the expanded form of everything in March 2020 (a read: it must not
         # change what later queries answer)
         exp = ('<?xml version="1.0"?><C:calendar-query %s><D:prop><D:getetag/><C:calendar-data>'
@@ -290,6 +301,8 @@ def run_filter_cases(table, frontend="wsgi", threshold=None):
             names, err, _ = cache[fk]
             key = repr([(c["kind"], c["summary"], c["att"]) for c in t["obj"]])
             name = "o%03d.ics" % objs.index(key)
+            if names is not None and any(b in names for b in broken) and not err:
+                err = "damaged-member-returned"
             out.append({"f": t["f"], "obj": t["obj"], "err": err,
                         "thr": "index" if threshold == 0 else "naive" if threshold else "default",
                         "got": (names is not None and name in names)})
